@@ -575,6 +575,31 @@ impl Segments {
     }
 }
 
+// Verification hook: read-only snapshot. See src/verif.rs.
+#[cfg(ikatson_librqbit_utp_verif)]
+impl Segments {
+    pub fn verif_snapshot(&self) -> crate::verif::SegmentsSnapshot {
+        crate::verif::SegmentsSnapshot {
+            snd_una: self.snd_una.0,
+            count: self.segments.len(),
+            len_bytes: self.len_bytes,
+            offset: self.offset,
+            removed_offset: self.removed_offset,
+            sack_depth: self.sack_depth,
+            segs: self
+                .segments
+                .iter()
+                .map(|s| crate::verif::SegSnapshot {
+                    payload_size: s.payload_size,
+                    send_count: s.send_count(),
+                    is_delivered: s.is_delivered,
+                    is_mtu_probe: s.is_mtu_probe,
+                })
+                .collect(),
+        }
+    }
+}
+
 #[cfg(test)]
 mod tests {
     use std::time::{Duration, Instant};
